@@ -45,8 +45,9 @@ fn sum_class(b: &[u8]) -> &'static str {
 fn general(seed: u64, idx: u64, rep: &mut Report) {
     let mut rng = Rng::derive(seed, 16, idx);
     rep.evaluations += 1;
-    let bs = *rng.pick(&CLI_BS);
-    let max_total = if bs >= 16384 { 8 * bs } else { 96 * 1024 };
+    let tiny = crate::util::tiny();
+    let bs = if tiny { *rng.pick(&[4usize, 8, 16]) } else { *rng.pick(&CLI_BS) };
+    let max_total = if tiny { 128 } else if bs >= 16384 { 8 * bs } else { 96 * 1024 };
     let c = gen_case(&mut rng, bs, max_total);
     let ctx = json!({"seed": seed, "case": idx, "family": "general", "bs": bs, "basis": brief(&c.basis), "source": brief(&c.source), "edit": c.meta.edit_shape});
     let (rl, matches, max_slides) = greedy_literals(&c.basis, &c.source, bs);
@@ -177,7 +178,9 @@ fn single_edit(seed: u64, idx: u64, rep: &mut Report) {
 pub fn run(seed: u64, thorough: bool, cases: Option<u64>) -> Report {
     let n = cases.unwrap_or(if thorough { 30_000 } else { 1200 });
     let mut rep = par_cases(n, |i, r| general(seed, i, r));
-    rep.merge(par_cases(n / 4, |i, r| identical(seed, i, r)));
-    rep.merge(par_cases(n / 3, |i, r| single_edit(seed, i, r)));
+    if !crate::util::tiny() {
+        rep.merge(par_cases(n / 4, |i, r| identical(seed, i, r)));
+        rep.merge(par_cases(n / 3, |i, r| single_edit(seed, i, r)));
+    }
     rep
 }
